@@ -25,6 +25,12 @@ lbool LookaheadSMTSolver::solve_() {
     }
 
     declareVarsToTheories();
+    // The activation literal of an assertion level without clauses occurs in no clause, but it is assumed all the same:
+    // it must count as a decision variable, otherwise the trail never has exactly dec_vars entries and the loop
+    // that waits for a complete assignment does not end.
+    for (Lit l : this->assumptions) {
+        setDecisionVar(var(l), true);
+    }
 
     double nof_conflicts = restart_first;
     crossed_assumptions = 0;
